@@ -175,7 +175,7 @@ def t_bankruptcy_handler(world, oid='C07.b'):
         def one(pat, what):
             c = [(i, e) for i, e in enumerate(E) if e[0] == 'call' and re.search(pat, e[1])]
             if len(c) != 1:
-                ob.structural(f'{len(c)} calls of {what} on an accepting path (exactly one required)', 'missing:' + what, tr(E)); return None
+                ob.shape(len(c), 1, f'{len(c)} calls of {what} on an accepting path (exactly one required)', 'missing:' + what, tr(E)); return None
             return c[0]
         bk = one(r'check_account_bankrupt$', 'check_account_bankrupt'); acc = one(r'accrue_interest$', 'accrue_interest')
         gl = one(r'get_liability_amount$', 'get_liability_amount'); T = one(r'withdraw_spl_transfer$', 'withdraw_spl_transfer')
